@@ -123,6 +123,18 @@ def parse_pipeline(ctx, rule):
             # same pipeline as patterns: Nfa -> CompiledDfa::from (closure construction + minimizer)
             conv = [e for e in p.events if e[0] == "call" and re.search(r"Into<internal::compiled_dfa::CompiledDfa>>::into$|CompiledDfa as std::convert::From<internal::nfa::Nfa>>::from$", e[2])]
             ctx.ob(rule, "lookahead:compiled-through-the-same-pipeline", len(conv) == 1, "Nfa -> CompiledDfa conversions: %d" % len(conv), tl.loc())
+    # ... and the automaton is stored as the pipeline produced it: nothing in this function writes into it or borrows it (or a
+    # part of it) mutably — "pruning" the lookahead automaton changes the length of the text it matches, which the
+    # trailing-context rule measures
+    muts = []
+    for af_, sites_ in F.direct_writes(tl).items():
+        if re.search(r"(^|::)(CompiledDfa|StateData|CompiledLookahead)$", af_[0]):
+            muts.append("%s.%s (%s)" % (M.short_name(af_[0]), af_[1], sites_[0][2]))
+    for bb_, i_, s_ in tl.assigns():
+        rv_ = s_["rv"]
+        if rv_["k"] in ("ref", "rawptr") and rv_.get("mut") and "compiled_dfa::CompiledDfa" in tl.locals[rv_["p"]["l"]]["ty"] and not tl.locals[rv_["p"]["l"]]["ty"].startswith("&"):
+            muts.append("&mut %s" % (tl.names().get(rv_["p"]["l"]) or "_%d" % rv_["p"]["l"]))
+    ctx.ob(rule, "lookahead:compiled-automaton-is-stored-as-compiled", not muts, "writes / mutable borrows of the compiled automaton in try_from_lookahead: %s" % (sorted(set(muts)) or "none"), tl.loc())
     ctx.ob(rule, "lookahead:all-outcomes", seen == {"parse-err", "convert-err", "ok"}, "outcomes %s" % sorted(seen), tl.loc())
 
 
